@@ -5,6 +5,7 @@ import (
 	"verif/checks/c02"
 	"verif/checks/c03"
 	"verif/checks/c12"
+	"verif/checks/c13"
 	"verif/engine/ev"
 )
 
@@ -13,5 +14,6 @@ func main() {
 		"C02": c02.Check,
 		"C03": c03.Check,
 		"C12": c12.Check,
+		"C13": c13.Check,
 	})
 }
